@@ -164,9 +164,22 @@ def slice(ctx: fw.Ctx) -> fw.Outcome:
             if rng.random() < 0.5:  # longest sustain not on the last note
                 tr.groups.append(gen.NoteGroup(t + 5, {rng.randrange(5): 0}))
             cases.append((src, gen.render(src, rng, p)))
+    # small scope, complete: every chord with every lane absent or written with a length 0..3 (5^5 − 1 chords), one track, twice
+    # (in enumeration order and shuffled: what a chord reports is a function of its own lines)
+    import itertools
+    chords = [pat for pat in itertools.product((None, 0, 1, 2, 3), repeat=5) if any(x is not None for x in pat)]
+    for shuffled in (False, True):
+        order = chords[:]
+        if shuffled:
+            rng.shuffle(order)
+        src = gen.rand_src(rng, p)
+        src.res, src.meta["resolution"] = 192, 192
+        src.tempo, src.tss, src.anchors, src.gevents, src.unknown = [(0, 120000), (7000, 90000)], [(0, 4, None)], [], [], []
+        src.tracks = [gen.TrackSrc(0, 3, [gen.NoteGroup(10 * k, {l: v for l, v in enumerate(pat) if v is not None}) for k, pat in enumerate(order)], [], [])]
+        pp = ic.prof(garbage=0.0, exotic_pad=0.0, exotic_digits=0.0)
+        cases.append((src, gen.render(src, rng, pp, garbage=False)))
     if ctx.tier == "thorough":
         # all 3^5 − 1 present/zero/non-zero patterns
-        import itertools
         for pat in itertools.product((None, 0, 1), repeat=5):
             if all(x is None for x in pat):
                 continue
